@@ -3,12 +3,15 @@ package props
 import (
 	"encoding/json"
 	"fmt"
+	"net/http/httptest"
 	"sort"
 	"strings"
+	"time"
 
 	"github.com/php-any/origami/data"
 	"github.com/php-any/origami/parser"
 	"github.com/php-any/origami/runtime"
+	originhttp "github.com/php-any/origami/std/net/http"
 
 	"verif/graph"
 	"verif/kf"
@@ -62,6 +65,52 @@ type c12World struct {
 	temps map[string]data.VM
 	seq   int
 	names []string
+	// hot mode: temporary VMs are the request VMs created by std/net/http HotHandler.ServeHTTP
+	hot     *originhttp.HotHandler
+	release map[string]chan struct{}
+	ended   map[string]chan struct{}
+	vmCh    chan data.VM
+	newHot  func(t string) data.VM
+}
+
+// c12HandlerFunc is a Go-implemented request handler: it publishes the request VM and stays in
+// the request until the driver discards it.
+type c12HandlerFunc struct{ fn func(ctx data.Context) }
+
+func (f c12HandlerFunc) Call(ctx data.Context) (data.GetValue, data.Control) { f.fn(ctx); return nil, nil }
+func (c12HandlerFunc) GetName() string                                        { return "handler" }
+func (c12HandlerFunc) GetParams() []data.GetValue                             { return nil }
+func (c12HandlerFunc) GetVariables() []data.Variable {
+	return []data.Variable{data.NewVariable("r", 0, nil), data.NewVariable("w", 1, nil)}
+}
+
+func (w *c12World) enableHot() {
+	w.release = map[string]chan struct{}{}
+	w.ended = map[string]chan struct{}{}
+	w.vmCh = make(chan data.VM)
+	var cur chan struct{}
+	fn := c12HandlerFunc{fn: func(ctx data.Context) {
+		rel := cur
+		w.vmCh <- ctx.GetVM()
+		<-rel
+	}}
+	w.hot = &originhttp.HotHandler{Value: fn, Ctx: w.base.CreateContext(fn.GetVariables())}
+	w.newHot = func(t string) data.VM {
+		rel, end := make(chan struct{}), make(chan struct{})
+		w.release[t], w.ended[t] = rel, end
+		cur = rel
+		go func() {
+			defer close(end)
+			defer func() { recover() }()
+			w.hot.ServeHTTP(httptest.NewRecorder(), httptest.NewRequest("GET", "/hot", nil))
+		}()
+		select {
+		case vm := <-w.vmCh:
+			return vm
+		case <-time.After(5 * time.Second):
+			return nil
+		}
+	}
 }
 
 func newC12World(names []string) *c12World {
@@ -117,9 +166,21 @@ func (w *c12World) apply(a c12Act) (ok bool, detail string) {
 	w.seq++
 	switch a.Op {
 	case "new":
+		if w.hot != nil {
+			vm := w.newHot(a.VM)
+			if _, ok := vm.(*runtime.TempVM); !ok {
+				return false, fmt.Sprintf("HotHandler request runs on %T, not a request VM", vm)
+			}
+			w.temps[a.VM] = vm
+			return true, ""
+		}
 		w.temps[a.VM] = runtime.NewTempVM(w.base)
 		return true, ""
 	case "discard":
+		if w.hot != nil {
+			close(w.release[a.VM])
+			<-w.ended[a.VM]
+		}
 		delete(w.temps, a.VM)
 		return true, ""
 	case "define":
@@ -280,21 +341,35 @@ func C12(c *Ctx) *kf.Report {
 	restore := rt.CaptureOutput(&sb)
 	defer restore()
 
-	paths, steps := 0, 0
+	paths, steps, hotPaths := 0, 0, 0
 	nontrivial := map[string]bool{}
 	var samples []any
 	type step struct {
 		act   c12Act
 		table c12Table
 	}
-	replay := func(sts []step, scriptEvery bool, names []string) {
+	replay := func(sts []step, scriptEvery bool, names []string, hot bool) {
 		paths++
 		w := newC12World(names)
+		if hot {
+			w.enableHot()
+			hotPaths++
+			defer func() { // let parked requests return
+				for t, rel := range w.release {
+					if _, alive := w.temps[t]; alive {
+						close(rel)
+					}
+				}
+			}()
+		}
 		var ids []string
 		for _, s := range sts {
 			ids = append(ids, strings.Trim(strings.Join([]string{s.act.Op, s.act.VM, s.act.Kind, s.act.Name}, ":"), ":"))
 		}
 		id := "C12/path=" + strings.Join(ids, ",")
+		if hot {
+			id = "C12/via=HotHandler/path=" + strings.Join(ids, ",")
+		}
 		isNontrivial := false
 		for i, s := range sts {
 			ok, detail := w.apply(s.act)
@@ -340,7 +415,16 @@ func C12(c *Ctx) *kf.Report {
 			sts[i].table = st.table()
 		}
 		if len(sts) > 0 {
-			replay(sts, false, names)
+			replay(sts, false, names, false)
+			news := 0
+			for _, s := range sts {
+				if s.act.Op == "new" {
+					news++
+				}
+			}
+			if news >= 2 { // temporary VMs created by HotHandler requests instead of NewTempVM
+				replay(sts, false, names, true)
+			}
 		}
 		return len(rep.Mismatches) < 200
 	})
@@ -376,7 +460,8 @@ func C12(c *Ctx) *kf.Report {
 				}
 				sts[i] = step{h.Act, dropDead(h.Table, func(v string) bool { return cp[v] })}
 			}
-			replay(sts, true, big)
+			replay(sts, true, big, false)
+			replay(sts, false, big, true)
 		}
 		rep.Coverage["seeded_walks"] = len(sim.Tagged["WALK"])
 		rep.Coverage["seeded_walk_len"] = walkLen
@@ -389,6 +474,7 @@ func C12(c *Ctx) *kf.Report {
 	rep.Coverage["distinct_nontrivial"] = len(nontrivial)
 	rep.Coverage["exhaustive"] = true
 	rep.Coverage["exhaustive_paths"] = exhaustive
+	rep.Coverage["paths_via_HotHandler"] = hotPaths
 	rep.Coverage["rule"] = fmt.Sprintf("all paths of length <= %d of the TempVM state graph (1 base + 2 temps, names {A,B}, <= %d definitions) replayed on real VMs with the resolve table of every live VM compared after every step (Go API) and at the end of each path (scripts); plus TLC -simulate walks of length %d over 4 temps / 8 names compared after every step at both levels; non-trivial = a temp definition made while another temp VM is alive", depth, maxDefs, walkLen)
 	if len(samples) == 0 {
 		samples = append(samples, "none")
